@@ -42,7 +42,7 @@ class BloomFilter(object):
             self.set_bit(murmur3(item_bytes, seed=seed) % self.bit_count)
 
     def add_address(self, address: str) -> None:
-        the_hash160 = a2b_hashed_base58(address)[1:]
+        the_hash160 = a2b_hashed_base58(address)[-20:]
         self.add_item(the_hash160)
 
     def add_hash160(self, the_hash160: bytes) -> None:
